@@ -8,7 +8,9 @@ COQ_PROPS = ['Props/C19.v']
 COQ_IMPORTS = ['Prims', 'CaseLib', 'IntCodec', 'Print', 'PrintPP']
 RULE = ('str/repr for all contents and lengths (every residue mod 4 and mod 3, 0..40 exhaustively and around the 1000-bit truncation limit) x four classes x pos: re-parse / eval round trip, '
         'truncation mark and true length; pp() for all pairs of bin/hex/oct/bytes formats x group sizes x widths 0..200 x separators x show_offset x lsb0/no_color: digits in order, groups never split, '
-        'line widths, no escape sequences under no_color; Array.__repr__ re-evaluated for unscaled dtypes. non-trivial = length not a multiple of 4 or a pp with two formats; distinct by arguments')
+        'line widths, no escape sequences under no_color; pp with an explicit group size from one digit to far beyond the whole data (every length 0..2 groups and a bit; a usable group size must print: digits + trailing bits, '
+        'trailing bits = length mod group size); str/repr after every move of a history on ONE object (stream reads / peeks / seeks / bytealign / searches, refused calls, documented mutators, both bit numberings) and of every '
+        'bitstring object such a call returns, against a (bits, pos) reference machine; Array.__repr__ re-evaluated for unscaled dtypes. non-trivial = length not a multiple of 4 or a pp with two formats; distinct by arguments')
 ASSUMPTIONS = ['MAX_CHARS is read from the working tree and compared with the model constant', 'pp layout theorems are not proved (partial): the pp oracle carries that part']
 
 def gen_cases(rng, tier):
@@ -67,6 +69,298 @@ def gen_cases(rng, tier):
         n = 24 * max(g, 8) * rng.choice([2, 5, 13])
         yield {'op': 'pplayout', 'f1': f1, 'f2': f2, 'g': g, 'n': n, 'seed': rng.randrange(1 << 30), 'width': rng.choice([0, 1, 10, 40, 60, 61, 62, 63, 80, 100, 120, 160, 200, rng.randrange(0, 260)]),
                'sep': rng.choice([' ', ' ', '', '__', ', ']), 'show_offset': rng.random() < 0.5}
+    # pp() with an explicit group size around and BEYOND the whole data (no group, one group, two groups and a bit), every residue of the length modulo the digit sizes
+    yield from gen_pp_short(rng, tier)
+    # printable forms of streams whose position was reached by stream operations (reads, seeks, bytealign, searches, refused calls) on one object
+    yield from gen_stream_pos(rng, tier)
+
+# ---------------------------------------------------------------------------------------------------------------------------------------------------
+# pp(): which calls have to print. Written from the documentation of pp(): a format is one or two of bin / oct / hex / bytes, an explicit length is the
+# group size in bits (bytes: in bytes), 0 = not grouped; the bits left over after the whole groups are reported as trailing bits.
+UNIT = {'bin': 1, 'oct': 3, 'hex': 4, 'bytes': 8}
+
+def pp_tokens(fmt):
+    """[(name, stated group size in bits or None)] for a format made of one or two bin/oct/hex/bytes tokens, else None"""
+    out = []
+    for part in fmt.split(','):
+        m = re.fullmatch(r'\s*([a-z]+)\s*:?\s*(\d+)?\s*', part)
+        if not m or m.group(1) not in UNIT: return None
+        out.append((m.group(1), None if m.group(2) is None else int(m.group(2)) * (8 if m.group(1) == 'bytes' else 1)))
+    return out if 1 <= len(out) <= 2 else None
+
+def pp_group(fmt):
+    """('bad', None): the format itself is unusable (ValueError is the documented answer); ('group', G): explicit group size G > 0 every format can show;
+    ('free', l): not grouped / no length given, every line is cut where the formats allow: data must be a multiple of l bits to be displayable"""
+    import math
+    toks = pp_tokens(fmt)
+    if toks is None: return ('bad', None)
+    stated = [L for _, L in toks if L is not None]
+    if len(set(stated)) > 1: return ('bad', None)                          # two different group sizes
+    if any(L is not None and L % UNIT[nm] for nm, L in toks): return ('bad', None)   # a length the dtype does not have
+    l = 1
+    for nm, _ in toks: l = l * UNIT[nm] // math.gcd(l, UNIT[nm])
+    if stated and stated[0] > 0:
+        return ('group', stated[0]) if stated[0] % l == 0 else ('bad', None)
+    return ('free', l)
+
+def pp_displayable(fmt, n):
+    """True when pp(fmt) on n bits has to print (a ValueError would be a failure): with a usable explicit group size ANY length is printable - whole groups as
+    digits, the rest (possibly everything, possibly nothing) as trailing bits; without one the data must be a whole number of digits of every format"""
+    k, v = pp_group(fmt)
+    if k == 'group': return True
+    if k == 'free': return n % v == 0
+    return False
+
+def gen_pp_short(rng, tier):
+    import math
+    quick = tier == 'quick'
+    names = ['bin', 'oct', 'hex', 'bytes']
+    combos = [(a,) for a in names] + [(a, b) for a in names for b in names if a != b]
+    for combo in combos:
+        l = 1
+        for nm in combo: l = l * UNIT[nm] // math.gcd(l, UNIT[nm])
+        mults = [1, rng.choice([2, 3]), rng.choice([4, 5, 8]), rng.choice([11, 16, 40])] if quick else [1, 2, 3, 4, 5, 8, 11, 16, 40]
+        for m in mults:
+            G = l * m
+            if quick:
+                ns = {0, rng.randrange(1, G) if G > 1 else 1, G - 1, rng.choice([G, G + 1]), rng.randrange(G + 1, 2 * G + 3), rng.choice([1, 2, 3, 5, 7])}
+            else:
+                ns = set(range(0, min(2 * G + 4, 70))) | {G - 1, G, G + 1, 2 * G - 1, 2 * G, 2 * G + 1, 3 * G + 2} | {rng.randrange(0, 3 * G + 1) for _ in range(6)}
+            for n in sorted(ns):
+                def spell(nm, with_len):
+                    if not with_len: return nm
+                    v = G // 8 if nm == 'bytes' else G
+                    return f"{nm}{rng.choice([':', '', ': '])}{v}"
+                if len(combo) == 1: fmt = spell(combo[0], True)
+                else:
+                    w = rng.choice([(True, True), (True, True), (True, False), (False, True)])
+                    fmt = spell(combo[0], w[0]) + rng.choice([', ', ',']) + spell(combo[1], w[1])
+                yield {'op': 'pp', 'cls': rng.choice(CLASSES), 'bits': rand_bits(rng, n), 'fmt': fmt, 'width': rng.choice([0, 1, 17, 40, 80, 120, 200, rng.randrange(0, 201)]),
+                       'sep': rng.choice([' ', ' ', '', '_', ', ']), 'show_offset': rng.random() < 0.6, 'lsb0': rng.random() < 0.3, 'no_color': rng.random() < 0.7}
+
+# ---------------------------------------------------------------------------------------------------------------------------------------------------
+# objects with a HISTORY: a (bits, pos) reference machine, written from the documentation, for the operations that move the position of a stream
+# (both bit numberings), the documented mutators (msb0) and the operations that return a new bitstring object (both numberings).
+# A move is a JSON list. ref_move -> (bits afterwards, pos afterwards | 'open', [bits of every bitstring object the call returns] | None).
+# 'open' = the documentation does not fix the position after this mutator: any valid one, the printable forms must show the one the object reports.
+# A refused call (ReadError, ValueError ...) changes nothing. pos is None for Bits / BitArray.
+STREAMS = ('ConstBitStream', 'BitStream')
+FLIP = str.maketrans('01', '10')
+
+def ref_move(d, pos, mv, lsb0):
+    n = len(d); k = mv[0]
+    def sl(a, b):                        # the slice [a:b], 0 <= a <= b (clipped to the data like any Python slice), in the numbering in force
+        a, b = min(a, n), min(b, n)
+        return d[n - b:n - a] if lsb0 else d[a:b]
+    same = (d, pos, None)
+    def first_from(pat, start):          # lowest position >= start (in the numbering in force) at which pat stands, or None
+        if not lsb0:
+            j = d.find(pat, start)
+            return None if j < 0 else j
+        j = d[:max(n - start, 0)].rfind(pat)
+        return None if j < 0 else n - len(pat) - j
+    def last(pat):
+        j = d.find(pat) if lsb0 else d.rfind(pat)
+        if j < 0: return None
+        return n - len(pat) - j if lsb0 else j
+    # --- moving the position (stream classes)
+    if k in ('read', 'peek'):
+        if mv[1] < 0 or pos + mv[1] > n: return same
+        return (d, pos + mv[1] if k == 'read' else pos, [sl(pos, pos + mv[1])])
+    if k == 'readfmt':                   # ['readfmt', name, length]: a length the dtype does not have is refused
+        Ln = mv[2]
+        if Ln <= 0 or (mv[1] == 'hex' and Ln % 4) or (mv[1] == 'oct' and Ln % 3) or pos + Ln > n: return same
+        return (d, pos + Ln, [sl(pos, pos + Ln)] if mv[1] == 'bits' else None)
+    if k == 'readlist':                  # all or nothing
+        if any(x <= 0 for x in mv[1]) or pos + sum(mv[1]) > n: return same
+        return (d, pos + sum(mv[1]), None)
+    if k == 'rest': return (d, n, None)             # read('bin'): everything that is left, possibly nothing
+    if k == 'align':
+        t = pos + (-pos) % 8
+        return (d, t if t <= n else pos, None)
+    if k in ('pos', 'bitpos'): return (d, mv[1] if 0 <= mv[1] <= n else pos, None)
+    if k == 'bytepos': return (d, mv[1] * 8 if 0 <= mv[1] * 8 <= n else pos, None)
+    if k == 'find':
+        i = first_from(mv[1], mv[2] or 0)
+        return (d, pos if i is None else i, None)
+    if k == 'rfind':
+        i = last(mv[1])
+        return (d, pos if i is None else i, None)
+    if k == 'readto':
+        i = first_from(mv[1], pos)
+        if i is None: return same
+        return (d, i + len(mv[1]), [sl(pos, i + len(mv[1]))])
+    # --- mutators (BitArray, BitStream; msb0)
+    moved = lambda d2, p2: (d2, None if pos is None else p2, None)
+    if k in ('append', 'iadd'): return moved(d + mv[1], n + len(mv[1]))            # "The current bit position will be moved to the end of the BitStream."
+    if k == 'prepend': return moved(mv[1] + d, 'open')
+    if k in ('insert', 'overwrite'):     # "moved to the end of the inserted / overwritten section"; ValueError for a position outside the data
+        b, q = mv[1], mv[2]
+        if q is None: q = pos
+        if q < 0: q += n
+        if not 0 <= q <= n: return same
+        if not b: return same
+        return moved(d[:q] + b + d[q:] if k == 'insert' else d[:q] + b + d[q + len(b):], q + len(b))
+    if k in ('del', 'setslice'):         # the position is fixed only while the length stays what it was
+        d2 = d[:mv[1]] + (mv[3] if k == 'setslice' else '') + d[mv[2]:]
+        return moved(d2, pos if len(d2) == n else 'open')
+    if k == 'clear': return moved('', 'open')
+    if k == 'setbin': return moved(mv[1], 'open')
+    if k == 'imul': return moved(d * mv[1], pos if mv[1] == 1 else 'open')
+    if k == 'reverse': return moved(d[::-1], pos)
+    if k == 'invert': return moved(d.translate(FLIP), pos)
+    if k == 'ror': return moved(d[-(mv[1] % n):] + d[:-(mv[1] % n)] if n and mv[1] % n else d, pos)
+    # --- a new object (all four classes); None where the call is refused (shifts, ~ and the bit-wise operators of an empty bitstring)
+    if k == 'derive':
+        h = mv[1]
+        new = lambda *xs: (d, pos, list(xs))
+        if h in ('copy', 'ccopy', 'ctor', 'bits', 'unpack', 'getall'): return new(d)
+        if h == 'add': return new(d + mv[2])
+        if h == 'radd': return new(mv[2] + d)
+        if h in ('mul', 'rmul'): return new(d * mv[2])
+        if h == 'join': return new(d + mv[2] + d)
+        if h == 'slice': return new(sl(mv[2], mv[3]))
+        if h == 'step': return new(d[::-1][mv[2]:mv[3]:mv[4]][::-1] if lsb0 else d[mv[2]:mv[3]:mv[4]])      # any Python slice; lsb0 numbers the same bits from the other end
+        if h == 'cut': return (d, pos, [sl(i, min(i + mv[2], n)) for i in range(0, n, mv[2])][:6])
+        if n == 0: return same
+        if h == 'inv': return new(d.translate(FLIP))
+        if h in ('and', 'or'): return new(d)
+        if h == 'xor': return new('0' * n)
+        if h == 'lsh': return new(d[mv[2]:] + '0' * min(mv[2], n))
+        if h == 'rsh': return new('0' * min(mv[2], n) + d[:max(n - mv[2], 0)])
+    raise AssertionError(mv)
+
+def do_move(s, mv):
+    import copy
+    from bitstring import Bits
+    k = mv[0]; B = lambda x: Bits(bin=x)
+    if k == 'read': return s.read(mv[1])
+    if k == 'readfmt': return s.read(f'{mv[1]}:{mv[2]}')
+    if k == 'peek': return s.peek(mv[1])
+    if k == 'readlist': return s.readlist(', '.join(f'bin:{x}' for x in mv[1]))
+    if k == 'rest': return s.read('bin')
+    if k == 'align': return s.bytealign()
+    if k == 'pos': s.pos = mv[1]; return None
+    if k == 'bitpos': s.bitpos = mv[1]; return None
+    if k == 'bytepos': s.bytepos = mv[1]; return None
+    if k == 'find': return s.find(B(mv[1])) if mv[2] is None else s.find(B(mv[1]), mv[2])
+    if k == 'rfind': return s.rfind(B(mv[1]))
+    if k == 'readto': return s.readto(B(mv[1]))
+    if k == 'append': return s.append(B(mv[1]))
+    if k == 'iadd': s += B(mv[1]); return None
+    if k == 'prepend': return s.prepend('0b' + mv[1] if mv[1] else B(''))
+    if k == 'insert': return s.insert(B(mv[1])) if mv[2] is None else s.insert(B(mv[1]), mv[2])
+    if k == 'overwrite': return s.overwrite(B(mv[1])) if mv[2] is None else s.overwrite(B(mv[1]), mv[2])
+    if k == 'del': del s[mv[1]:mv[2]]; return None
+    if k == 'setslice': s[mv[1]:mv[2]] = B(mv[3]); return None
+    if k == 'clear': return s.clear()
+    if k == 'setbin': s.bin = mv[1]; return None
+    if k == 'imul': s *= mv[1]; return None
+    if k == 'reverse': return s.reverse()
+    if k == 'invert': return s.invert()
+    if k == 'ror': return s.ror(mv[1])
+    if k == 'derive':
+        h = mv[1]
+        if h == 'copy': return s.copy()
+        if h == 'ccopy': return copy.copy(s)
+        if h == 'ctor': return type(s)(s)
+        if h == 'bits': return s.bits
+        if h == 'unpack': return s.unpack('bits')
+        if h == 'getall': return s[:]
+        if h == 'add': return s + B(mv[2])
+        if h == 'radd': return ('0b' + mv[2] if mv[2] else []) + s
+        if h == 'mul': return s * mv[2]
+        if h == 'rmul': return mv[2] * s
+        if h == 'join': return B(mv[2]).join([s, s]) if type(s) is Bits else type(s)(bin=mv[2]).join([s, s])
+        if h == 'slice': return s[mv[2]:mv[3]]
+        if h == 'step': return s[mv[2]:mv[3]:mv[4]]
+        if h == 'cut': return [x for _, x in zip(range(6), s.cut(mv[2]))]
+        if h == 'inv': return ~s
+        if h == 'and': return s & s
+        if h == 'or': return s | B('0' * len(s))
+        if h == 'xor': return s ^ s
+        if h == 'lsh': return s << mv[2]
+        if h == 'rsh': return s >> mv[2]
+    raise AssertionError(mv)
+
+def rand_move(rng, cls, bits, lsb0):
+    """one move an object of class cls holding (about) `bits` can be asked for"""
+    n = len(bits)
+    p = rng.randrange(0, n + 1)
+    small = lambda: rand_bits(rng, rng.choice([0, 1, 2, 3, 8, 9]))
+    kinds = ['derive'] * 3
+    if cls in STREAMS: kinds += ['read', 'read', 'readfmt', 'peek', 'readlist', 'rest', 'align', 'align', 'pos', 'bitpos', 'bytepos', 'find', 'rfind', 'readto'] * 2
+    if cls in MUTABLE and not lsb0: kinds += ['append', 'iadd', 'prepend', 'insert', 'overwrite', 'del', 'setslice', 'clear', 'setbin', 'imul', 'reverse', 'invert', 'ror']
+    k = rng.choice(kinds)
+    pat = lambda: (bits[p:p + rng.choice([1, 2, 3, 8])] or '1') if rng.random() < 0.7 else rand_bits(rng, rng.choice([1, 2, 3, 9]), 'rand')
+    left = n - p
+    if k in ('read', 'peek'): return [k, rng.choice([0, 1, 2, 3, 7, 8, left, left + 1, max(left - 1, 0), -1, n, n + 1])]
+    if k == 'readfmt': return [k, rng.choice(['bin', 'uint', 'int', 'bits', 'bits', 'hex', 'oct']), rng.choice([1, 2, 3, 4, 6, 8, 12, max(left, 1), left + 1])]
+    if k == 'readlist': return [k, [rng.choice([1, 2, 3, 5, 8, max(left, 1)]) for _ in range(rng.randrange(1, 4))]]
+    if k in ('rest', 'align', 'clear', 'reverse', 'invert'): return [k]
+    if k in ('pos', 'bitpos'): return [k, rng.choice([0, n, n + 1, -1, p, p, 8 * (n // 8), max(n - 1, 0)])]
+    if k == 'bytepos': return [k, rng.choice([0, 1, n // 8, n // 8 + 1, -1, (n + 7) // 8])]
+    if k == 'find': return [k, pat(), rng.choice([None, None, 0, p])]
+    if k in ('rfind', 'readto'): return [k, pat()]
+    if k in ('append', 'iadd', 'prepend'): return [k, small()]
+    if k in ('insert', 'overwrite'): return [k, small(), rng.choice(([None, None] if cls in STREAMS else []) + [0, p, n, n + 1, -1, -n - 1])]
+    if k in ('del', 'setslice'):
+        a = rng.randrange(0, n + 1); b = rng.choice([a, n, rng.randrange(a, n + 1)])
+        if rng.random() < 0.3: a, b = rng.choice([(0, n), (max(n - 3, 0), n), (0, min(3, n)), (n // 2, n)])      # cut the data down to below where a position may stand
+        return [k, a, b] if k == 'del' else [k, a, b, small()]
+    if k == 'setbin': return [k, rand_bits(rng, rng.choice([0, 1, 3, 8, max(n - 1, 0), n + 1]))]
+    if k == 'imul': return [k, rng.choice([0, 1, 2, 3])]
+    if k == 'ror': return [k, rng.choice([0, 1, 3, 8, n, n + 1])]
+    h = rng.choice(['copy', 'ccopy', 'ctor', 'bits', 'unpack', 'getall', 'add', 'radd', 'mul', 'rmul', 'join', 'slice', 'slice', 'step', 'step', 'cut', 'inv', 'and', 'or', 'xor', 'lsh', 'lsh', 'rsh', 'rsh'])
+    if h in ('add', 'radd', 'join'): return [k, h, small()]
+    if h in ('mul', 'rmul'): return [k, h, rng.choice([0, 1, 2, 3])]
+    if h == 'slice':
+        a = rng.randrange(0, n + 1)
+        return [k, h, a, rng.choice([a, n, rng.randrange(a, n + 1)])]
+    if h == 'step':
+        f = lambda: rng.choice([None, None, 0, 1, -1, n, -n, n + 2, -n - 2, rng.randrange(-n - 1, n + 2)])
+        return [k, h, f(), f(), rng.choice([1, -1, -1, 2, -2, 3, 7, None])]
+    if h == 'cut': return [k, h, rng.choice([1, 3, 4, 8, max(n, 1), n + 1])]
+    if h in ('lsh', 'rsh'): return [k, h, rng.choice([0, 0, 1, 3, 4, 8, max(n - 1, 0), n, n + 1, 1000])]
+    return [k, h]
+
+STREAM_LENGTHS = list(range(0, 42)) + [47, 48, 49, 63, 64, 65, 127, 128, 129, 996, 997, 999, 1000, 1001, 1003, 1004, 1023, 1025]
+
+def gen_stream_pos(rng, tier):
+    quick = tier == 'quick'
+    # (a) sweep: on one object, every position of interest (start, the whole last - possibly partial - byte, byte boundaries) is reached by a stream operation
+    #     and then every kind of move is tried from there, the printable forms being taken after each move
+    for n in STREAM_LENGTHS:
+        for cls in (STREAMS if not quick else [rng.choice(STREAMS)]):
+            for lsb0 in ([False, True] if not quick else [rng.random() < 0.3]):
+                bits = rand_bits(rng, n)
+                starts = sorted(set([0, 1, 7, 8, 9, n // 2] + list(range(8 * (n // 8), n + 1)) + list(range(max(n - 9, 0), n + 1))))
+                starts = [x for x in starts if 0 <= x <= n]
+                if quick and len(starts) > 8: starts = sorted(rng.sample(starts[:-4], 4) + starts[-4:])
+                moves = []
+                for st in starts:
+                    tests = [['align'], ['read', n - st + 1], ['read', n - st], ['readfmt', 'hex', 3], ['bytepos', n // 8 + 1], ['readlist', [1, n - st + 1]], ['pos', n + 1], ['rest'],
+                             ['find', rand_bits(rng, 9, 'rand'), None], ['readto', rand_bits(rng, 11, 'rand')], ['peek', n - st + 1], ['readfmt', 'bin', n - st + 1],
+                             ['derive', 'lsh', rng.choice([0, 1, max(n - 1, 0)])], ['derive', 'copy'], ['derive', 'slice', st, n], ['derive', 'step', None, None, rng.choice([-1, 2, -3])]]
+                    if quick: tests = [['align']] + rng.sample(tests[1:], 3)
+                    for t in tests:
+                        reach = rng.choice(['pos', 'bitpos', 'read0', 'read0', 'readlist0', 'find'])
+                        if reach in ('pos', 'bitpos'): moves.append([reach, st])
+                        elif reach == 'read0': moves += [['pos', 0], ['read', st]]
+                        elif reach == 'readlist0': moves += [['bitpos', 0]] + ([['readlist', [st]]] if st else [])
+                        else:
+                            here = bits[max(n - st - 12, 0):n - st] if lsb0 else bits[st:st + 12]      # what stands at position st (in the numbering in force): found where the search starts
+                            moves += [['pos', 0], ['find', here, st]] if here else [['pos', st]]
+                        moves.append(t)
+                yield {'op': 'stream_pos', 'cls': cls, 'bits': bits, 'lsb0': lsb0, 'pos0': rng.choice([0, 0, n]), 'moves': moves}
+    # (b) random histories on objects of all four classes: position moves (streams), documented mutators (mutable classes, msb0), and calls that return new objects
+    for _ in range(160 if quick else 5000):
+        n = rng.choice(STREAM_LENGTHS) if rng.random() < 0.8 else rng.randrange(0, 300)
+        bits = rand_bits(rng, n)
+        cls = rng.choice(CLASSES + list(STREAMS) * 2)
+        lsb0 = rng.random() < 0.35
+        yield {'op': 'stream_pos', 'cls': cls, 'bits': bits, 'lsb0': lsb0, 'pos0': rng.choice([0, 0, n // 2, n]) if cls in STREAMS else None,
+               'moves': [rand_move(rng, cls, bits, lsb0) for _ in range(rng.randrange(3, 20))]}
 
 def kind(c): return c['op']
 
@@ -148,6 +442,18 @@ def run_impl(c):
             return attempt(f)
         finally:
             bitstring.options.no_color = False
+    if op == 'stream_pos':
+        s = build(c['cls'], c['bits'], 'bin', c['pos0'])
+        bitstring.options.lsb0 = bool(c['lsb0'])
+        trace = []
+        for mv in c['moves']:
+            r = attempt(lambda: do_move(s, mv))
+            rets = []
+            if r[0] == 'ok':
+                v = r[1] if isinstance(r[1], (list, tuple)) else [r[1]]
+                rets = [[type(x).__name__, printable(x), attempt(lambda: getattr(x, 'pos') if hasattr(type(x), 'pos') else None)[1]] for x in v if isinstance(x, Bits)]
+            trace.append(['ok' if r[0] == 'ok' else r[1], printable(s), attempt(lambda: s.pos if hasattr(type(s), 'pos') else None)[1], rets])
+        return ('ok', trace)
     if op == 'array_repr':
         import random
         from props.c14 import rand_item, pv
@@ -193,6 +499,47 @@ def run_impl(c):
             return out
         return attempt(f)
 
+def printable(s):
+    """what str() and repr() say about s; each is taken on its own, so that a failure of one does not hide the other"""
+    from bitstring import Bits, BitArray, ConstBitStream, BitStream
+    short = lambda t, a, b: t if len(t) <= a + b + 1 else t[:a] + '~' + t[-b:]
+    out = {}
+    st = rp = None
+    try: st = str(s); out['str'] = short(st, 270, 20)
+    except Exception as e: out['str_exc'] = f'{type(e).__name__}: {str(e)[:100]}'
+    try: rp = repr(s); out['repr'] = short(rp, 300, 70)
+    except Exception as e: out['repr_exc'] = f'{type(e).__name__}: {str(e)[:100]}'
+    if st is not None and not st.endswith('...'):
+        try: out['reparse'] = Bits(st).bin if st else ''
+        except Exception as e: out['reparse_exc'] = f'{type(e).__name__}: {str(e)[:100]}'
+        if rp is not None:
+            try:
+                e = eval(rp.split('  #')[0], {'Bits': Bits, 'BitArray': BitArray, 'ConstBitStream': ConstBitStream, 'BitStream': BitStream})
+                out['eval'] = [type(e).__name__, e.bin, getattr(e, 'pos', None)]
+            except Exception as e: out['eval_exc'] = f'{type(e).__name__}: {str(e)[:100]}'
+    return out
+
+def judge_printable(cls, d, pos, out):
+    """the str / repr clauses of the property for an object of class cls holding the bits d (a str of 0 and 1) at position pos (None for the classes without one)"""
+    n = len(d)
+    if 'str_exc' in out: return f"str(s) raised {out['str_exc']}"
+    if 'repr_exc' in out: return f"repr(s) raised {out['repr_exc']}"
+    if n > 1000:
+        if not out['str'].endswith('...'): return f"str of {n} bits is not marked as truncated"
+        if f'length={n}' not in out['repr']: return f"repr of {n} bits does not state the true length: {out['repr'][-60:]!r}"
+        if pos is not None:
+            m = re.search(r'pos=(\d+)', out['repr'])
+            if (int(m.group(1)) if m else 0) != pos: return f"repr shows {m.group(0) if m else 'no pos (= 0)'}: {out['repr'][-60:]!r}"
+        return None
+    if out['str'].endswith('...'): return f"str of {n} bits (<= 1000) is truncated"
+    if 'reparse_exc' in out: return f"str(s) = {out['str'][:60]!r} does not parse: {out['reparse_exc']}"
+    if out['reparse'] != d: return f"Bits(str(s)) != s: str(s) = {out['str'][:60]!r}"
+    if 'eval_exc' in out: return f"repr(s) = {out['repr'][:90]!r} cannot be evaluated: {out['eval_exc']}"
+    if out.get('eval') != [cls, d, pos]:
+        e = out.get('eval') or [None, '', None]
+        return f"repr(s) = {out['repr'][:90]!r} evaluates to a {e[0]} with pos={e[2]} and {'the same' if e[1] == d else 'OTHER'} bits"
+    return None
+
 ESC = re.compile(r'\x1b\[[0-9;]*m')
 DIG = {'bin': (1, '01'), 'hex': (4, '0123456789abcdef'), 'oct': (3, '01234567')}
 
@@ -230,10 +577,14 @@ def check_pp(c, text):
     sep = c['sep']
     got = ['' for _ in names]
     # group size in bits: an explicit length in the format, else the documented default for one format (two formats without a length: not documented, skipped)
-    lens = [int(x) for x in re.findall(r':\s*(\d+)', c['fmt'])] or [int(x) for x in re.findall(r'[a-z]+(\d+)', c['fmt'])]
-    if lens: g = lens[0] * (8 if 'bytes' in c['fmt'].split(',')[0] and re.search(r'bytes:?\s*\d', c['fmt'].split(',')[0]) else 1)
+    stated = [L for _, L in (pp_tokens(c['fmt']) or []) if L is not None]
+    if stated: g = stated[0]
     elif len(names) == 1: g = {'bin': 8, 'hex': 8, 'oct': 12, 'bytes': 32}.get(names[0])
     else: g = None
+    # the trailing bits are what is left after the whole groups of an explicit group size: fewer than one group, and nothing when the length is a whole number of groups
+    if stated and g and len(trailing) != len(bits) % g:
+        return f'{len(trailing)} trailing bits are reported; {len(bits)} bits are {len(bits) // g} whole group(s) of {g} bits and {len(bits) % g} trailing bits'
+    if not (stated and g) and trailing: return f'trailing bits {trailing[:40]!r} are reported although the format states no group size'
     line_bits = []
     for ln in body:
         if not ln: continue
@@ -271,6 +622,7 @@ def check_pp(c, text):
     if g:
         for nb in line_bits[:-1]:
             if nb is not None and nb % g: return f'a line holds {nb} bits, which splits a group of {g} bits'
+    G = g
     for nm, g in zip(names, got):
         if nm in DIG:
             w, alphabet = DIG[nm]
@@ -283,6 +635,11 @@ def check_pp(c, text):
                 return f'{nm} digits printed {g[:60]!r} differ from the data digits {exp[:60]!r}'
             if c['lsb0'] and sorted(g) != sorted(exp) and not (len(exp_src) % w):
                 return f'{nm} digits printed under lsb0 are not a rearrangement of the data digits'
+            # under lsb0 the groups are numbered (and printed) from the least significant end, each group most significant digit first
+            if c['lsb0'] and G and G % w == 0 and not (len(exp_src) % w):
+                per = G // w
+                back = ''.join(reversed([g[k:k + per] for k in range(0, len(g), per)]))
+                if back != exp: return f'{nm} groups printed under lsb0, taken from the last to the first, give {back[:60]!r}; the data digits are {exp[:60]!r}'
     return None
 
 def oracle(c, obs):
@@ -300,9 +657,35 @@ def oracle(c, obs):
         pos = c['pos'] if c['cls'] in ('ConstBitStream', 'BitStream') else None
         if o['eval'] != [c['cls'], c['bits'], pos]: return f"eval(repr(s)) = {o['eval'][0]}(.., pos={o['eval'][2]}) for {c['cls']}(pos={pos}): repr={o['repr'][:80]!r}"
         return None
+    if op == 'stream_pos':
+        d = c['bits']; pos = c['pos0']; lsb0 = bool(c['lsb0'])
+        for k, (mv, (r, out, seen_pos, rets)) in enumerate(zip(c['moves'], obs[1])):
+            prev, nprev = pos, len(d)
+            d, pos, exp = ref_move(d, pos, mv, lsb0)
+            where = f"{c['cls']} of {nprev} bits (lsb0={c['lsb0']}) at pos {prev}, move #{k} {mv} ({r}; the moves before it: {c['moves'][max(0, k - 2):k]})"
+            if pos == 'open':
+                # the documentation leaves the position after this mutator open: it has to be a valid one, and the one the printable forms show
+                if not isinstance(seen_pos, int) or not 0 <= seen_pos <= len(d): return f"{where}: the stream reports pos={seen_pos} for {len(d)} bits"
+                pos = seen_pos
+            msg = judge_printable(c['cls'], d, pos, out)
+            if msg: return f"{where}: afterwards {msg}; the (bits, pos) reference has {len(d)} bits, pos={pos}"
+            # every bitstring object the call returned: an object of the receiver's class (streams: positioned at 0) holding the bits the reference gives
+            if r == 'ok' and exp is not None:
+                if len(rets) != len(exp): return f"{where} returned {len(rets)} bitstring object(s), the reference gives {len(exp)}"
+                for (rc, rout, rpos), e in zip(rets, exp):
+                    msg = judge_printable(c['cls'], e, 0 if c['cls'] in STREAMS else None, rout)
+                    if msg: return f"{where}: for the returned {rc} object (reference: {len(e)} bits {e[:40]!r}, .pos gives {rpos}) {msg}"
+        return None
     if op == 'pp':
         if obs[0] != 'ok':
-            return None if obs[1] == 'ValueError' else f"pp({c['fmt']!r}, width={c['width']}) raised {obs}"
+            n = len(c['bits'])
+            if obs[1] == 'ValueError' and not pp_displayable(c['fmt'], n): return None
+            why = ''
+            if obs[1] == 'ValueError':
+                k, v = pp_group(c['fmt'])
+                why = (f": a group size of {v} bits suits every format, so any length is printable (whole groups as digits, the other {n % v} bits as trailing bits)" if k == 'group'
+                       else f": {n} bits are a whole number of digits of every format")
+            return f"pp({c['fmt']!r}, width={c['width']}, sep={c['sep']!r}, show_offset={c['show_offset']}, lsb0={c['lsb0']}) on {c['cls']} of {n} bits raised {obs[1]}{why}"
         msg = check_pp(c, obs[1])
         return None if msg is None else f"pp({c['fmt']!r}, width={c['width']}, sep={c['sep']!r}, show_offset={c['show_offset']}, lsb0={c['lsb0']}) on {len(c['bits'])} bits: {msg}"
     if op == 'pplayout':
